@@ -106,6 +106,8 @@ type SessionResult struct {
 	ClientStderr, ClientStdout, ServerStderr string
 	WireCS, WireSC []byte // tapped wire bytes when requested
 	HookErr   error
+	BytesCS, BytesSC int64 // bytes accepted per direction
+	CutFired, FreezeFired bool
 }
 
 // SessionHooks customise a session run.
@@ -439,6 +441,9 @@ func runSyncInBubble(sc *SyncScenario, lay Layout, hooks SessionHooks, res *Sess
 	if hooks.TapWire {
 		res.WireCS, res.WireSC = wireCS.Bytes(), wireSC.Bytes()
 	}
+	res.BytesCS, res.BytesSC = cEnd.WPipe().Accepted, cEnd.RPipe().Accepted
+	res.CutFired = cEnd.WPipe().CutFired || cEnd.RPipe().CutFired
+	res.FreezeFired = cEnd.WPipe().FreezeFired || cEnd.RPipe().FreezeFired
 	finish()
 	if ln != nil {
 		ln.Close()
